@@ -44,9 +44,14 @@ def blob(b):
 
 
 def parse_case(case):
+    """-> (codec, tokens); a "+x" suffix of the codec (conversions before every poll) is dropped: it must not change anything"""
     codec, script = case.split(";", 1)
     toks = script.split(",") if script else []
-    return codec, toks
+    return codec.split("+")[0], toks
+
+
+def codec_field(case):
+    return case.split(";", 1)[0]
 
 
 def stream_of(toks):
@@ -56,7 +61,7 @@ def stream_of(toks):
     for t in toks:
         if t == "z" or t == "c":
             break
-        if t[0] == "c":
+        if t[0] in "cb":            # b<hex>: the read buffer the Framed was built with (FramedParts::with_read_buf)
             out += bytes.fromhex(t[1:])
         elif t == "e":
             errs += 1
@@ -112,7 +117,7 @@ def entries(trace):
 
 
 def fuel_of(toks):
-    return len(toks) + sum((len(t) - 1) // 2 for t in toks if t[0] == "c") + 8
+    return len([t for t in toks if t[0] != "b"]) + sum((len(t) - 1) // 2 for t in toks if t[0] in "cb") + 8
 
 
 def monitor(case, impl, model):
@@ -166,7 +171,7 @@ def nontrivial(case, model):
 
 
 def shrink(case):
-    codec, toks = parse_case(case)
+    codec, toks = codec_field(case), parse_case(case)[1]
     n = len(toks)
     k = n // 2
     while k >= 1:
@@ -343,6 +348,8 @@ COQ_CODEC = {"lines": ("Lines.decode Lines.decode_eof", {"IE": "Item IErr"}, "It
 
 def to_coq(case, model):
     codec, toks = parse_case(case)
+    if any(t[0] == "b" for t in toks):
+        return None
     if sum(len(t) for t in toks) > 40 or "#" in model or "|" in model or model == "PANIC":
         return None
     fn, fixed, okfmt = COQ_CODEC[codec]
@@ -388,4 +395,23 @@ def streams(ctx):
                 finding_key=finding_key, timeout=300 if quick else 1500,
                 describe="%d random streams delivered in chunks of up to 9000 bytes; the mock hands over what fits into the room "
                          "Framed offers (so the real reserve/capacity logic decides the chunking); frames compared" % len(big))
-    return [s1, s2, s3]
+    # Framed built from parts with a pre-filled read buffer, and the state-preserving conversions before every poll
+    base = [c for c in enum if c.split(";")[0] in ("lines", "lp", "bytes")]
+    rng.shuffle(base)
+    parts = []
+    for c in base[:1500 if quick else 20000] + rnd[:60 if quick else 600]:
+        codec, toks = parse_case(c)
+        parts.append(codec + "+x;" + ",".join(toks))
+        k = next((i for i, t in enumerate(toks) if t[0] == "c" and len(t) > 1), None)
+        if k is not None and "e" not in toks[:k]:
+            pre = ["b" + toks[k][1:]] + toks[:k] + toks[k + 1:]
+            parts.append(codec + ";" + ",".join(pre))
+            parts.append(codec + "+x;" + ",".join(pre))
+            whole = stream_of(toks)[0]
+            parts.append(codec + ";b" + whole.hex() + rng.choice(["", ",z", ",p", ",p,z", ",e"]))
+    s4 = Stream("c13parts", "c13", parts, monitor=monitor, nontrivial=nontrivial, shrink=shrink, compare=compare_exact,
+                finding_key=finding_key, timeout=300 if quick else 1500,
+                describe="%d variants of enumerated and random scripts: Framed::from_parts(FramedParts::with_read_buf(..)) with the first chunk "
+                         "(or the whole stream) already in the read buffer, and into_parts/from_parts, into_map_io, into_map_codec applied "
+                         "before every poll ('+x'); the model is unchanged by construction (conversions carry buffers and flags over)" % len(parts))
+    return [s1, s2, s3, s4]
